@@ -108,6 +108,7 @@ def check(ctx):
     _r4(ctx, regs)
     _r5(ctx, pkg)
     _r6(ctx, pkg, regs, protos, consts, universal)
+    _r7(ctx, rm, pkg, regs)
 
 
 # ------------------------------------------------------------------ R1
@@ -519,7 +520,64 @@ HH = "naunet/grains/hh93grain.py"
 RR = "naunet/grains/rr07grain.py"
 RATES = "naunet/templates/cvode/src/naunet_rates.cpp.j2"
 FEX = "naunet/templates/cvode/src/naunet_fex.cpp.j2"
+# ------------------------------------------------------------------ R7
+
+def _exhaustive(gs):
+    """do the guard tuples of the registrations of one name cover every path through __init__?"""
+    gs = [tuple(g) for g in gs]
+    if () in gs:
+        return True
+    heads = {g[0][0] for g in gs}
+    for c in heads:
+        t = [g[1:] for g in gs if g[0] == (c, True)]
+        f = [g[1:] for g in gs if g[0] == (c, False)]
+        if t and f and _exhaustive(t) and _exhaustive(f):
+            return True
+    return False
+
+
+def _r7(ctx, rm, pkg, regs):
+    """The registry model (and the generated code) treats 'class G registers X' as 'any network containing a G declares X':
+    the symbol tables of all reactions are merged, so X is declared iff SOME instance registered it.  A registration that only
+    some instances perform leaves X undeclared in a network made of the other instances while texts still mention it."""
+    n = 0
+    for cls in REACTION_CLASSES + GRAIN_CLASSES + ["ThermalProcess"]:
+        byname = {}
+        for r in rm.registry(cls):
+            if r["cls"] != cls or r["loops"] or r["op"] != "register" or r["name"][0] != "const":
+                continue
+            byname.setdefault(r["name"][1], []).append(r)
+        for name, rs in byname.items():
+            n += 1
+            gs = [tuple((simp(c), bool(p)) for c, p in r["guards"]) for r in rs]
+            key = f"{cls}.__init__:register({name!r}):every instance"
+            where = (rs[0]["file"], rs[0]["line"])
+            if _exhaustive(gs):
+                ctx.ok("R7", key, where, "registered on every path through __init__")
+                continue
+            sym = Sym(rs[0])
+            guard = " and ".join(("" if p_ else "not ") + f"({show(c)[:70]})" for c, p_ in gs[0])
+            # who mentions the symbol outside that guard?
+            users = []
+            for c2 in REACTION_CLASSES + GRAIN_CLASSES + ["ThermalProcess"]:
+                for label, text, file, line in _texts_of_class(rm, pkg, c2, regs):
+                    try:
+                        ids = set(idents_of(text))
+                    except calg.CParseError:
+                        ids = set(re.findall(r"[A-Za-z_]\w*", text))
+                    if sym.text in ids or (sym.param and any(i.startswith(sym.base) for i in ids)):
+                        users.append(f"{c2}: {label}")
+            if users:
+                ctx.bad("R7", key, where, f"`{sym.text}` is registered only when {guard}; a network whose {cls} instances never satisfy that leaves it undeclared, yet it is referenced by "
+                        f"{sorted(set(users))[:4]}", expected="unconditional registration (or both arms of the condition register the name)", found=f"guard: {guard}")
+            else:
+                ctx.unrec("R7", key, where, f"`{sym.text}` is registered only when {guard} and no literal text mentions it: cannot decide who relies on it")
+    ctx.floor("R7", "registered names", n, 80)
+
+
 MUTANTS = [
+    {"name": "leeds-stick-only-for-accretion", "file": "naunet/reactions/leedsreaction.py", "old": '        self.register(\n            "sticking_coefficient1",', "new": '        if self.reaction_type != self.ReactionType.LEEDS_FR:\n            return\n        self.register(\n            "sticking_coefficient1",', "rules": ["R7"]},
+    {"name": "uclchem-h2form-conditional", "file": "naunet/reactions/uclchemreaction.py", "old": '        self.register("radiation_field", ', "new": '        if self.reaction_type == self.ReactionType.UCLCHEM_PH:\n          self.register("radiation_field", ', "rules": ["R7"]},
     {"name": "register-line-deleted", "file": HH, "old": '        self.register("surface_hopping_ratio", (f"hop{group}", 0.3, vt.param))\n', "new": "", "rules": ["R1"]},
     {"name": "derived-order", "edits": [
         {"file": HH, "old": '        self.register(\n            "surface_sites_density",\n            (f"densites{group}", f"garea{group} * sites{group}", vt.derived),\n        )\n', "new": ""},
@@ -536,5 +594,6 @@ MUTANTS = [
      "new": "    {% set components = network.reactions + network.grains -%}\n    {% for key, value in components | collect_variable_items(\"deriveds\") -%}\n        realtype {{ key }} = {{ value }};\n    {% endfor %}\n\n#if (NHEATPROCS || NCOOLPROCS)\n    if (mu < 0) mu = GetMu(y);", "rules": ["R5"]},
 ]
 BENIGN = [
+    {"name": "leeds-register-in-both-arms", "file": "naunet/reactions/leedsreaction.py", "old": '        self.register("radiation_field", ("G0", 1.0, vt.param))\n', "new": '        if self.rtype == 4:\n            self.register("radiation_field", ("G0", 1.0, vt.param))\n        else:\n            self.register("radiation_field", ("G0", 1.0, vt.param))\n'},
     {"name": "unrelated-registers-reordered", "file": HH, "old": '        self.register("habing_field_photon_number", ("habing", 1e8, vt.constant))\n        self.register("cosmic_ray_induced_photon_number", ("crphot", 1e4, vt.constant))\n', "new": '        self.register("cosmic_ray_induced_photon_number", ("crphot", 1e4, vt.constant))\n        self.register("habing_field_photon_number", ("habing", 1e8, vt.constant))\n'},
 ]
